@@ -822,9 +822,15 @@ func propC03(c *Ctx) int {
 		j.Name, j.Fn, j.MustReach = "JSIGHT missing / not first / wrong version", "HFaultJsight", []string{"jsight-fault-rejected"}
 		c.RunJob(j)
 	}
+	{
+		j := base
+		j.Name, j.Fn, j.MustReach = "symbolic path parameter name", "HFaultPathParam", []string{"ambiguous-found", "same-parameter"}
+		c.RunJob(j)
+	}
 	return c.Finish("model_checking", []string{
 		"fault catalogue (harness/core/zz_verif_c03.go, 58 classes, each under LF / CRLF / CR line ends of the whole project: duplicate interaction/type/enum/server/tag/macro/OperationId, similar and duplicated path parameters, second Title/Version/Description/Query/Request body/Headers/BaseUrl/Protocol, undefined type/tag/macro, missing required parameter, forbidden annotation, JSIGHT repeated, Type+SchemaNotation, Method without Protocol, request/response with Headers but without a body) injected into a valid document; fault class and placement (root file / INCLUDEd file / pasted MACRO body) are symbolic; oracle: rejected, message of that class, located in the file and on the line of the offending directive (real jerr.NewLocation, no contract stub)",
 		"symbolic names: a TYPE/ENUM/SERVER/TAG/MACRO/OperationId/method path with a symbolic two-byte name is appended: rejected as duplicate on that directive exactly when the name equals the existing name of its kind (the solver finds the equal-name case), accepted otherwise",
+		"symbolic path parameter: POST /cats/{xy}, URL /cats/{xy} + DELETE, PUT /cats/{xy}/toys with two symbolic letters/digits xy appended to a document with GET /cats/{id}: rejected as an ambiguous path on that directive exactly when xy differs from id in any byte (the solver looks for an accepted differing name), accepted when equal",
 		"outside: faults crossed with layouts (C08), rule/example mismatches inside schemas (jsight-schema-core)",
 		"JSIGHT missing, not first, without version, with a wrong (symbolic) version: rejected on line 1",
 		contractRune,
